@@ -16,7 +16,7 @@
                                 table never deadlock.
   The hazards the discipline rules out are deadlocks of the machine (`relock_is_a_deadlock`, `recursive_rlock_is_modelled`).
   History: the table of the original tree contained ClusterContext ⟶ ClusterContext (partition removal under cc.Lock),
-  which no rank can order; it was replayed on the real code and repaired (ba4338a); the replay stays as a regression
+  which no rank can order; it was replayed on the real code and repaired (d47df11); the replay stays as a regression
   scenario of `harness -c lock`. A new call under a lock that creates an unrankable edge makes `table_ranked` fail; the
   driver then names the edge and its witness chain (class C14.unranked-edge…).
 -/
@@ -117,7 +117,7 @@ theorem relock_is_a_deadlock (s : State Inst) (t : Tid) (i : Inst) (m : Mode)
   relock_self_deadlock s t i m hh hw
 
 /-- no rank can order an edge from a class to itself whose instances are not parent/child: should the translator find
-    one again (as ClusterContext ⟶ ClusterContext before ba4338a) the rank theorem fails whatever the rank table says -/
+    one again (as ClusterContext ⟶ ClusterContext before d47df11) the rank theorem fails whatever the rank table says -/
 theorem self_edge_never_ranked (r : Cls → Nat) (e : Edge) (h1 : e.held = e.acq) (h2 : e.rel ≠ .up) :
     ¬ (r e.held < r e.acq ∨ (e.held = e.acq ∧ e.rel = .up)) := by
   rintro (h | ⟨_, h⟩)
